@@ -436,6 +436,10 @@ func runOne(work, path string) {
 		c.Applied, c.Terms, c.Oracle = nil, nil, nil
 		runConflict(work, 0, c)
 		gen.Emit(c)
+	case "batch":
+		c := &BatchCase{}
+		_ = json.Unmarshal(raw, c)
+		gen.Emit(runBatch(c))
 	case "coord":
 		c := &CoordCase{}
 		_ = json.Unmarshal(raw, c)
@@ -556,6 +560,12 @@ func main() {
 	}
 	for i := 0; i < n/25+1; i++ {
 		gen.Emit(runCoord(genCoord(r.Fork())))
+	}
+	for _, c := range corpusBatch() {
+		gen.Emit(runBatch(c))
+	}
+	for i := 0; i < n/25+1; i++ {
+		gen.Emit(runBatch(genBatch(r.Fork())))
 	}
 	emitTrunc(work, r.Fork(), n/4+1)
 	for i := 0; i < n/8+1; i++ {
